@@ -201,32 +201,41 @@ Section EngineP.
   (** *** termination with a linear bound (C15)
 
       [rank] bounds the length of chains of zero-length expectations: every handler step
-      that consumes no byte lowers it, and it never exceeds [R]. *)
+      that consumes no byte lowers it, and it never exceeds [R].  [Inv] is an invariant of the
+      (state, pending expectation) pair that the steps preserve. *)
+  Variable Inv : st -> pend -> Prop.
   Variable rank : st -> pend -> nat.
   Variable R : nat.
   Hypothesis rank_le : forall s p, (rank s p <= R)%nat.
-  Hypothesis need_nonneg : forall s p, 0 <= need s p.
-  Hypothesis zero_step_lowers : forall s p blk s' p' es,
-    need s p = 0 -> step s p blk = Ok s' p' es -> (rank s' (next_pend pend p p') < rank s p)%nat.
+  Hypothesis step_inv : forall s p blk s' p' es,
+    Inv s p -> bytes_ok blk = true -> step s p blk = Ok s' p' es ->
+    Inv s' (next_pend pend p p') /\ (need s p <= 0 -> (rank s' (next_pend pend p p') < rank s p)%nat).
 
-  Theorem terminates_linear : forall s p buf,
+  Lemma bytes_ok_app a b : bytes_ok (a ++ b) = true <-> bytes_ok a = true /\ bytes_ok b = true.
+  Proof. unfold bytes_ok. rewrite forallb_app. apply andb_true_iff. Qed.
+
+  Theorem terminates_linear_inv : forall s p buf,
+    Inv s p -> bytes_ok buf = true ->
     exists es r n, Drain s p buf es r n /\ (n <= (R + 1) * length buf + rank s p + 1)%nat.
   Proof.
     intros s p buf.
     remember ((R + 1) * length buf + rank s p)%nat as mu eqn:Emu.
-    revert s p buf Emu. induction mu as [mu IH] using lt_wf_ind. intros s p buf Emu.
+    revert s p buf Emu. induction mu as [mu IH] using lt_wf_ind. intros s p buf Emu HI Hb.
     destruct (take (need s p) buf) as [[blk rest]|] eqn:Et.
-    - destruct (step s p blk) as [s' p' es|es] eqn:Es.
-      + pose proof (take_some_app _ _ _ _ Et) as Eb.
-        pose proof (take_some_len _ _ _ _ (need_nonneg s p) Et) as El.
+    - pose proof (take_some_app _ _ _ _ Et) as Eb.
+      assert (Hbb : bytes_ok blk = true /\ bytes_ok rest = true) by (apply bytes_ok_app; rewrite <- Eb; exact Hb).
+      destruct Hbb as [Hblk Hrest].
+      destruct (step s p blk) as [s' p' es|es] eqn:Es.
+      + destruct (step_inv _ _ _ _ _ _ HI Hblk Es) as [HI' Hlow].
         assert (Hmu : ((R + 1) * length rest + rank s' (next_pend pend p p') < mu)%nat).
-        { subst buf. rewrite app_length in Emu. unfold len in El.
-          destruct (Z.eq_dec (need s p) 0) as [E0|E0].
-          - assert (length blk = 0%nat) by lia.
-            pose proof (zero_step_lowers _ _ _ _ _ _ E0 Es). nia.
-          - pose proof (need_nonneg s p). assert (1 <= length blk)%nat by lia.
+        { subst buf. rewrite app_length in Emu.
+          destruct (Z.le_gt_cases (need s p) 0) as [E0|E0].
+          - rewrite take_le0 in Et by exact E0. inversion Et; subst. cbn [length] in *.
+            specialize (Hlow E0). cbn [Nat.add] in *. nia.
+          - assert (Hn0 : 0 <= need s p) by lia. pose proof (take_some_len _ _ _ _ Hn0 Et) as El. unfold len in El.
+            assert (1 <= length blk)%nat by lia.
             pose proof (rank_le s' (next_pend pend p p')). nia. }
-        destruct (IH _ Hmu s' (next_pend pend p p') rest eq_refl) as (es2 & r & n & D & B).
+        destruct (IH _ Hmu s' (next_pend pend p p') rest eq_refl HI' Hrest) as (es2 & r & n & D & B).
         exists (es ++ es2), r, (S n). split; [eapply D_step; eassumption|]. lia.
       + exists es, Crashed, 1%nat. split; [eapply D_raise; eassumption|]. lia.
     - exists [], (Idle s p buf), 0%nat. split; [apply D_wait; exact Et|lia].
